@@ -12,7 +12,7 @@ THEOREMS = ["EngineModel.Properties.C04." + t for t in [
     "C04_setter_frame_hot_cue_at", "C04_setter_frame_loop_at", "C04_setter_frame_main_cue",
     "C04_setter_frame_hot_cues", "C04_setter_frame_average_loudness", "C04_setter_frame_key",
     "C04_setter_frame_sample_count", "C04_setter_frame_sample_rate", "C04_setter_frame_beatgrid",
-    "C04_setter_frame_loops", "C04_setter_frame_waveform",
+    "C04_setter_frame_loops", "C04_setter_frame_waveform", "C04_setter_frame_column_setters",
 ]]
 ASSUMPTIONS = [
     "payload level: compressed bytes are not compared (the harness recovers the payload of the re-encoded blob with "
